@@ -317,6 +317,7 @@ def run(prog, run):
     else:
         run.ok(r6, 'src/client', 'no setAttribute("from"/"to") in the client library (%d stamping sites in the server component seen as control)' % len(server_sites))
     r7_own_address(prog, run)
+    r8_presented_intact(prog, run)
     if run.tier == 'thorough':
         r5 = run.rule('C11.R5', 'no other function in the library unwraps a carbons-namespaced child into a message', floor=2)
         for f in prog.fns.values():
@@ -390,3 +391,48 @@ def r7_own_address(prog, run):
     else:
         run.ok(rid, jb.loc(), 'jidBare() is cached in %s; all %d writers of %s invalidate it' % (', '.join(sorted(x.split('::')[-1] for x in writes)), len(setters),
                                                                                               '/'.join(sorted(x.split('::')[-1] for x in sources))))
+
+
+# --------------------------------------------------------------------------- R8: what is presented is the inner message, not a moved-from object
+def r8_presented_intact(prog, run):
+    rid = run.rule('C11.R8', 'QXmppClient::injectMessage presents the unwrapped message it was given: the object is not handed by std::move to a function that takes it BY VALUE (which '
+                             'moves it out for certain) before it is emitted or otherwise used again - the application would receive an empty shell instead of the inner message', floor=1)
+    f = prog.fn('QXmppClient::injectMessage')
+    run.instance(rid)
+    bad = None
+    for i, c in f.calls():
+        ptypes = (f.sym(c) or {}).get('ptypes') or []
+        for k, a in enumerate(c.get('args', [])):
+            mv = [f.nodes[j] for j in f.walk(a) if f.nodes[j]['k'] == 'call' and (f.cname(f.nodes[j]) or '') == 'std::move' and f.nodes[j].get('args')]
+            if not mv:
+                continue
+            v = f.nodes[f.skip(mv[0]['args'][0])]
+            if v['k'] != 'var' or k >= len(ptypes):
+                continue
+            pt = ptypes[k].strip()
+            if pt.endswith('&') or pt.endswith('*'):
+                continue            # (rvalue) reference: the callee may look without taking
+            later = [j for j, m in enumerate(f.nodes) if m['k'] == 'var' and m.get('decl') == v.get('decl') and j not in set(f.walk(i)) and f.pos(j) and f.pos(i)
+                     and (f.pos(j)[0] != f.pos(i)[0] and _block_reaches(f, f.pos(i)[0], f.pos(j)[0]) or (f.pos(j)[0] == f.pos(i)[0] and f.pos(j)[1] > f.pos(i)[1]))]
+            if later:
+                bad = (i, v.get('name'), pt, later[0])
+    if bad:
+        run.violation(rid, 'injectMessage#presented-after-move', f.loc(bad[3]),
+                      'injectMessage moves %s into a by-value parameter (%s) and uses it afterwards (%s): what the messageReceived signal carries is a moved-from object, not the '
+                      'inner message of the carbon' % (bad[1], bad[2], f.fmt(bad[3], inline=False)[:40]))
+    else:
+        run.ok(rid, f.loc(), 'the message is not moved out before it is presented')
+
+
+def _block_reaches(f, a, b):
+    seen, work = set(), [a]
+    while work:
+        x = work.pop()
+        for s_ in f.blocks[x]['succs']:
+            if s_ is None or s_ in seen:
+                continue
+            if s_ == b:
+                return True
+            seen.add(s_)
+            work.append(s_)
+    return False
